@@ -820,8 +820,10 @@ where
         // only check surrogate here, and we will check the code pointer later when use
         // `codepoint_to_utf8`
         if (0xD800..0xDC00).contains(&point1) {
-            // parse the second utf8 code point of surrogate
-            let point2 = if let Some(asc) = self.read.next_n(6) {
+            // parse the second utf8 code point of surrogate: only peek here, the bytes are
+            // consumed when they really are the low surrogate escape, otherwise they belong to
+            // the remaining string
+            let point2 = if let Some(asc) = self.read.peek_n(6) {
                 if asc[0] != b'\\' || asc[1] != b'u' {
                     if self.cfg.utf8_lossy {
                         return Ok(0xFFFD);
@@ -849,6 +851,7 @@ where
                 }
             }
 
+            self.read.eat(6);
             Ok((((point1 - 0xd800) << 10) | low_bit).wrapping_add(0x10000))
         } else if (0xDC00..0xE000).contains(&point1) {
             if self.cfg.utf8_lossy {
